@@ -437,4 +437,59 @@ class RenamedUses(object):
         return 'ok', vs, 2
 
 
-FAMILIES = [Imports(), Equivalence(), TypeIndex(), RenamedUses()]
+class MixedImports(object):
+    name = 'moved-and-kept-symbols-of-one-module'
+    describe = ('an SMIv1 module taking, in ONE clause, a symbol that has an SMIv2 home (moves to SNMPv2-TC / IF-MIB / SNMPv2-MIB / '
+                'IP-MIB / RFC1213-MIB) and a symbol that has none (stays with RFC1213-MIB resp. RFC1158-MIB), in either order, and '
+                'hanging a node below the one that stays: compiles to what the transliteration (each symbol from its home) gives')
+
+    PAIRS = [('RFC1213-MIB', moved, kept) for moved in ('DisplayString', 'ifIndex', 'sysDescr', 'ipForwarding')
+             for kept in ('ipRouteEntry', 'atTable', 'egp')] + \
+            [('RFC1158-MIB', moved, 'snmpInBadTypes') for moved in ('DisplayString', 'ipRoutingTable', 'egp', 'ifIndex')]
+
+    def blocks(self, tier):
+        return [{}]
+
+    def cases(self, block, tier):
+        for i in range(len(self.PAIRS)):
+            for order in (0, 1):
+                for backend in ('json', 'pysnmp'):
+                    yield {'pair': i, 'order': order, 'backend': backend}
+
+    def run_case(self, case):
+        v1mod, moved, kept = self.PAIRS[case['pair']]
+        home = v1stubs.expected_home(v1mod, moved)
+        assert home and not v1stubs.expected_home(v1mod, kept), (v1mod, moved, kept)
+        d1 = fixed_context(False) + [{'k': 'value', 'name': 'hungBelow', 'oid': [kept, 77]}]
+        d2 = fixed_context(True) + [{'k': 'value', 'name': 'hungBelow', 'oid': [kept, 77]}]
+        imps = dict(v1_imports(d1))
+        imps[v1mod] = [moved, kept] if case['order'] == 0 else [kept, moved]
+        m1 = {'name': 'V1TEST-MIB', 'imports': sorted(imps.items()), 'decls': d1}
+        imps2 = {'SNMPv2-SMI': ['enterprises', 'OBJECT-TYPE']}
+        imps2.setdefault(home[0], []).append(home[1])
+        imps2.setdefault(v1mod, []).append(kept)
+        m2 = {'name': 'V2TEST-MIB', 'imports': sorted(imps2.items()), 'decls': d2}
+        t1, t2 = mibspec.pretty([m1]), mibspec.pretty([m2])
+        sig = 'C16|moved-and-kept|%s|%s+%s|%s' % (v1mod, moved, kept, case['backend'])
+        r1, w1 = compile_v({'V1TEST-MIB': t1}, ['V1TEST-MIB'], case['backend'])
+        r2, w2 = compile_v({'V2TEST-MIB': t2}, ['V2TEST-MIB'], case['backend'])
+        if r2.get('V2TEST-MIB') != 'compiled':
+            raise core.InternalError('the SMIv2 transliteration does not compile: %r\n%s' % (getattr(r2.get('V2TEST-MIB'), 'error', None), t2))
+        if r1.get('V1TEST-MIB') != 'compiled':
+            return 'failed', [('%s|not-compiled' % sig, '%s\n%r\nstatuses %r' % (
+                t1, getattr(r1.get('V1TEST-MIB'), 'error', None), dict((k, str(v)) for k, v in r1.items())))], 2
+        vs = []
+        if case['backend'] == 'json':
+            doc1, doc2 = json.loads(w1['V1TEST-MIB']), json.loads(w2['V2TEST-MIB'])
+            if doc1.get('hungBelow', {}).get('oid') != doc2.get('hungBelow', {}).get('oid'):
+                vs.append(('%s|oid-differs' % sig, 'SMIv1 %r, transliteration %r\n%s' % (doc1.get('hungBelow'), doc2.get('hungBelow'), t1)))
+            i1 = dict((k, sorted(v)) for k, v in doc1.get('imports', {}).items() if k != 'class')
+            if home[1] not in i1.get(home[0], []) or kept not in i1.get(v1mod, []):
+                vs.append(('%s|imports-differ' % sig, 'imports %r\n%s' % (i1, t1)))
+        # the module the kept symbol stays with is a dependency like any other
+        if v1mod not in r1:
+            vs.append(('%s|home-of-kept-symbol-not-in-the-result' % sig, 'result keys %r\n%s' % (sorted(r1), t1)))
+        return 'ok', vs, 2
+
+
+FAMILIES = [Imports(), Equivalence(), TypeIndex(), RenamedUses(), MixedImports()]
